@@ -52,6 +52,8 @@ type KnownFinding struct {
 	Kind     string `json:"kind,omitempty"`
 	What     string `json:"what"`
 	Commit   string `json:"commit,omitempty"`
+	// Match: inputs (by label) that must have exactly these values for a violation to be this finding
+	Match map[string]uint64 `json:"match,omitempty"`
 }
 
 type workerOut struct {
@@ -245,7 +247,7 @@ func cmdCheck(args []string) {
 		}
 		for _, v := range res.Violations {
 			if kf := matchKnown(known, prop, r.spec.Func, v); kf != nil {
-				key := kf.Label + "|" + kf.Harness + "|" + kf.Kind
+				key := kf.Label + "|" + kf.Harness + "|" + kf.Kind + "|" + kf.What
 				knownHit[key] = kf
 				knownCount[key]++
 				continue
@@ -316,8 +318,10 @@ func cmdCheck(args []string) {
 			ok = o.panicked
 		case "deadlock":
 			ok = o.timedOut || o.deadlocked
-		case "alloc", "loop":
-			ok = o.panicked || o.timedOut || o.oom
+		case "alloc":
+			ok = o.panicked || o.timedOut || o.oom || strings.HasPrefix(o.assertFail, "bounded-alloc")
+		case "loop":
+			ok = o.timedOut || strings.HasPrefix(o.assertFail, "bounded-loop") || strings.HasPrefix(o.assertFail, "bounded-alloc") || o.oom
 		}
 		if o.err != "" {
 			inconclusive = append(inconclusive, fmt.Sprintf("%s: counterexample replay failed to run: %s", fv.run.spec.Func, o.err))
@@ -441,6 +445,23 @@ func matchKnown(known []*KnownFinding, prop, harness string, v *Violation) *Know
 			continue
 		}
 		if k.Kind != "" && k.Kind != v.Kind {
+			continue
+		}
+		ok := true
+		for lbl, want := range k.Match {
+			found := false
+			for _, in := range v.Inputs {
+				if in.Label == lbl {
+					found = in.Val == want
+					break
+				}
+			}
+			if !found {
+				ok = false
+				break
+			}
+		}
+		if !ok {
 			continue
 		}
 		return k
@@ -580,7 +601,7 @@ func (rp *replayer) run(h HarnessSpec, replayFile string, expectHang bool) repla
 	cmd.Dir = filepath.Join(rp.repo, h.Pkg)
 	cmd.Env = append(os.Environ(), "VERIF_REPLAY="+replayFile, "VERIF_HARNESS="+h.Func, "GOTRACEBACK=all")
 	// bound memory: a counterexample for the allocation obligation must not take the machine down
-	shell := fmt.Sprintf("ulimit -v 4000000; exec \"$@\"")
+	shell := fmt.Sprintf("ulimit -v 6000000; exec \"$@\"")
 	full := exec.Command("bash", append([]string{"-c", shell, "replay"}, cmd.Args...)...)
 	full.Dir = cmd.Dir
 	full.Env = cmd.Env
